@@ -302,6 +302,29 @@ def run(ctx):
             path = rng.choice(PATHS)
             judge(ctx, form, body, spans, exp, (), path, chunks)
             ctx.case((body, size, path))
+    # uploads that cross UploadFile's 1 MiB spool threshold (rolled to disk; the async path then hops through the thread pool)
+    if ctx.shard < 2:
+        big = bytes((i * 131 + (i >> 8)) & 0xFF for i in range(1_300_000)).replace(b"--big", b"__big")
+        form = {"boundary": b"big", "parts": [{"name": "small", "filename": None, "content": b"v1", "ctype": None, "extra": False},
+                                              {"name": "up", "filename": "large.bin", "content": big, "ctype": "application/octet-stream", "extra": False},
+                                              {"name": "tail", "filename": None, "content": "é".encode(), "ctype": None, "extra": False}],
+                "preamble": b"", "epilogue": b"", "pad": b""}
+        body, spans = MC.encode(form)
+        exp = MC.expected(form)
+        for size in ((65536, 100_003) if ctx.shard == 0 else (4096, 999_983)):
+            chunks = [body[j:j + size] for j in range(0, len(body), size)]
+            for path in ("sync", "async", "wsgi-form", "asgi-form"):
+                judge(ctx, {"boundary": b"big", "parts": "1.3 MB upload between two fields"}, body, spans, exp, (), path, chunks) if False else None
+                try:
+                    got = run_path(ctx, path, chunks, form)
+                    ctx.mon("ground-truth-compare")
+                    ctx.mon("path-" + path)
+                    if got != exp:
+                        ctx.violation(f"parts-differ|large-upload|{path}", {"form": "1.3 MB upload between two fields", "chunk": size, "path": path},
+                                      f"lengths {[len(x[2]) for x in got]} vs {[len(x[2]) for x in exp]}")
+                except Exception as e:
+                    ctx.violation(f"exception|{type(e).__name__}|{path}|large-upload", {"form": "1.3 MB upload", "chunk": size, "path": path}, repr(e)[:300])
+                ctx.case(("large-upload", size, path))
     ctx.extra["exhaustive_bound"] = "per generated body: all single cut positions (event-level + sync paths); all cut pairs for bodies up to the stated size"
 
 
